@@ -13,9 +13,9 @@ use proptest::strategy::Strategy;
 use pytest_language_server::{FixtureDatabase, FixtureDefinition};
 use serde_json::Value;
 use std::collections::{BTreeMap, BTreeSet};
-use std::path::PathBuf;
+use std::path::{Path, PathBuf};
 
-pub const RULE: &str = "proptest-generated in-memory workspaces (shadowed names, overrides with self-named parameters, imported / plugin / third-party fixtures, duplicate definitions in one file) and edit histories over them (every prefix, replayed on a fresh index); for every (definition, usage) pair the relation `U in find_references_for_definition(D) <=> find_fixture_definition(U) == D` is checked, plus no duplicates and reverse index == regrouped forward index. Non-trivial = some name has >=2 definitions and >=2 usages that resolve to different definitions (or one resolves to nothing); distinct = distinct generated values.";
+pub const RULE: &str = "proptest-generated in-memory workspaces (shadowed names, overrides with self-named parameters, imported / plugin / third-party fixtures, duplicate definitions in one file) and edit histories over them (every prefix, replayed on a fresh index); for every (definition, usage) pair the relation `U in find_references_for_definition(D) <=> find_fixture_definition(U) == D` is checked, plus no duplicates and reverse index == regrouped forward index. Real-world tier: the test suites shipped inside installed Python packages (numpy, scipy, sympy, networkx, pydantic, typer, ...; 6 in the quick tier, all found in thorough) are scanned in place by the real scan and the same inverse relation is evaluated. Rescan tier: the scan path revisits opened documents. Non-trivial = some name has >=2 definitions and >=2 usages that resolve to different definitions (or one resolves to nothing); distinct = distinct generated values.";
 pub const ASSUMPTIONS: &[&str] = &[
     "pure cross-query comparison on the implementation (which answer is right is C01's business)",
     "usages inside a file whose current text is unparsable are not queried by position (stale positions are C11's business)",
@@ -176,6 +176,73 @@ pub fn check_rescan(c: &RescanCase, info: &mut CaseInfo) -> Outcome {
     }
 }
 
+/// Real-world multi-file workspaces found offline: the test suites shipped inside installed Python
+/// packages (numpy, scipy, sympy, networkx, pydantic, typer, ...), each scanned in place by the real
+/// scan. The inverse relation needs no model, so it applies to any tree.
+pub fn corpus_workspaces(limit: usize) -> Vec<PathBuf> {
+    let mut out: Vec<PathBuf> = Vec::new();
+    let mut bases: Vec<PathBuf> = vec![PathBuf::from("/opt/veriftools/pyvenv/lib/python3.11/site-packages"), PathBuf::from("/root/miniconda/lib/python3.13/site-packages")];
+    if let Ok(rd) = std::fs::read_dir("/root/miniconda/pkgs") {
+        let mut pk: Vec<PathBuf> = rd.flatten().map(|e| e.path()).filter(|p| p.is_dir()).collect();
+        pk.sort();
+        for p in pk {
+            for py in ["python3.13", "python3.12", "python3.11"] {
+                let sp = p.join("lib").join(py).join("site-packages");
+                if sp.is_dir() {
+                    bases.push(sp);
+                }
+            }
+        }
+    }
+    fn has_tests(d: &Path, depth: usize) -> bool {
+        if depth > 5 {
+            return false;
+        }
+        let Ok(rd) = std::fs::read_dir(d) else { return false };
+        let mut es: Vec<PathBuf> = rd.flatten().map(|e| e.path()).collect();
+        es.sort();
+        for p in &es {
+            if let Some(n) = p.file_name().and_then(|n| n.to_str()) {
+                if p.is_file() && n.ends_with(".py") && (n.starts_with("test_") || n == "conftest.py") {
+                    return true;
+                }
+            }
+        }
+        es.iter().any(|p| p.is_dir() && has_tests(p, depth + 1))
+    }
+    for b in bases {
+        let Ok(rd) = std::fs::read_dir(&b) else { continue };
+        let mut ds: Vec<PathBuf> = rd.flatten().map(|e| e.path()).filter(|p| p.is_dir()).collect();
+        ds.sort();
+        for d in ds {
+            let n = d.file_name().and_then(|n| n.to_str()).unwrap_or("");
+            if n.ends_with(".dist-info") || n.ends_with(".egg-info") || n.starts_with('_') {
+                continue;
+            }
+            if has_tests(&d, 0) {
+                out.push(d);
+            }
+        }
+    }
+    out.truncate(limit);
+    out
+}
+
+pub fn check_corpus_workspace(dir: &Path, info: &mut CaseInfo) -> Outcome {
+    let db = FixtureDatabase::new();
+    db.scan_workspace(dir);
+    let files = db.file_cache.len();
+    let defs = all_defs(&db).len();
+    info.classes.push(format!("corpus workspace: {} files", if files < 10 { "<10" } else if files < 100 { "10-99" } else { ">=100" }));
+    if defs >= 2 {
+        info.nontrivial = true;
+    }
+    match inverse_relation(&db, &BTreeSet::new(), info) {
+        Ok(()) => Outcome::Ok,
+        Err(e) => Outcome::Fail(format!("real-world workspace {} ({} files, {} fixture definitions): {}", dir.display(), files, defs, e)),
+    }
+}
+
 pub fn check_history(h: &History, info: &mut CaseInfo) -> Outcome {
     let cfg = hist_cfg();
     let m = Model::new(&h.ws);
@@ -209,6 +276,19 @@ pub fn run(ctx: &Ctx) {
         crate::props::lsp_tiers::c04_counters(ctx, &c.ws, info)
     });
     ctx.run_prop("lib-history", ctx.tier.pick(3_000, 150_000), 16, || history(hist_cfg(), 6), |h, info| check_history(h, info));
+    let dirs = corpus_workspaces(ctx.tier.pick(6, 10_000) as usize);
+    let mut scanned = 0u64;
+    for d in &dirs {
+        let mut info = CaseInfo::default();
+        let out = std::panic::catch_unwind(std::panic::AssertUnwindSafe(|| check_corpus_workspace(d, &mut info))).unwrap_or_else(|_| Outcome::Fail("PANIC while scanning".into()));
+        scanned += 1;
+        ctx.record(&serde_json::json!({"corpus_workspace": d.to_string_lossy()}), &info, &out);
+        if let Outcome::Fail(m) = out {
+            ctx.violation("corpus-ws", &serde_json::json!({"dir": d.to_string_lossy()}), &m);
+            break;
+        }
+    }
+    ctx.set_extra("corpus_workspaces_scanned", serde_json::json!(scanned));
     ctx.run_prop("lib-rescan", ctx.tier.pick(4_000, 200_000), 16, || (workspace(cfg()), proptest::num::u16::ANY).prop_map(|(ws, rescan_mask)| RescanCase { ws, rescan_mask }), |c, info| check_rescan(c, info));
 }
 
@@ -230,6 +310,10 @@ pub fn judge(ctx: &Ctx, sub: &str, case: &Value) -> Option<Outcome> {
         "lib-history" => {
             let h: History = from_case(case)?;
             Some(check_history(&h, &mut info))
+        }
+        "corpus-ws" => {
+            let d = case.get("dir")?.as_str()?;
+            Some(check_corpus_workspace(Path::new(d), &mut info))
         }
         "lib-rescan" => {
             let c: RescanCase = from_case(case)?;
